@@ -52,6 +52,7 @@ DEFAULT_PROFILE = dict(
     p_select=45,
     p_dynamic=15,
     p_delay=15,
+    p_cumulative_in_select=8,  # a selection may list a cumulative worker (test_cumulative_select_worker_1)
 )
 
 
